@@ -16,7 +16,9 @@ run_demo() { # $1 = seeded dir ; prints exit status of the demonstration
     # runner that lives one level up and takes the demonstration as its argument
     mkdir -p $WT/out/m && cp -r $d/* $WT/out/m/ && cp $d/run_demo.sh $WT/out/run_demo.sh && (cd $WT && timeout 600 bash out/run_demo.sh out/m/demo.py >/tmp/confirm_demo.log 2>&1); echo $?
   elif [ -f $d/run_demo.sh ]; then
-    mkdir -p $WT/out/m && cp -r $d/* $WT/out/m/ && (cd $WT/out/m && timeout 600 bash ./run_demo.sh >/tmp/confirm_demo.log 2>&1); echo $?
+    # (second-wave runners name their own directory, out/m<N>, relative to the worktree)
+    local sub=$(grep -o 'out/m[0-9]*' $d/run_demo.sh | head -1 | sed 's|out/||'); [ -z "$sub" ] && sub=m
+    mkdir -p $WT/out/$sub && cp -r $d/* $WT/out/$sub/ && (cd $WT/out/$sub && timeout 600 bash ./run_demo.sh >/tmp/confirm_demo.log 2>&1); echo $?
   elif [ -f $d/demo_test.rs ]; then
     cp $d/demo_test.rs $WT/tests/demo_test.rs && (cd $WT && timeout 900 cargo test --offline --test demo_test >/tmp/confirm_demo.log 2>&1); echo $?
   elif [ -f $d/run.sh ]; then
